@@ -1,6 +1,7 @@
 package level
 
 import (
+	"errors"
 	"io"
 	"strconv"
 
@@ -325,6 +326,9 @@ func (l *linearPalette[T]) ReadFrom(r io.Reader) (n int64, err error) {
 	if n, err = size.ReadFrom(r); err != nil {
 		return
 	}
+	if size < 0 {
+		return n, errors.New("level: negative palette length")
+	}
 	if int(size) > cap(l.values) {
 		l.values = make([]T, size)
 	} else {
@@ -388,6 +392,9 @@ func (h *hashPalette[T]) ReadFrom(r io.Reader) (n int64, err error) {
 	var size, value pk.VarInt
 	if n, err = size.ReadFrom(r); err != nil {
 		return
+	}
+	if size < 0 {
+		return n, errors.New("level: negative palette length")
 	}
 	if int(size) > cap(h.values) {
 		h.values = make([]T, size)
